@@ -391,6 +391,8 @@ def build_request(ex, meta):
         r["option_combinators"] = True
     if o.get("keep_unreachable") == "1":
         r["keep_unreachable"] = True
+    if o.get("map_collect") == "1":
+        r["map_collect"] = True
     if o.get("opaque_into") == "1":
         r["opaque_into"] = True
     if "slice_group" in o:
